@@ -170,16 +170,16 @@ Print Assumptions no_input_overwritten_via_symlink_refuted.
 (* ---- two outputs, one path ---- *)
 
 (* when Compile leaves no error in the log (directory mode): the returned
-   files have pairwise distinct canonical paths, all come from the linker,
-   every linked file is represented by a returned file with the same canonical
-   path and the same contents, two linked files with one canonical path have
+   files have pairwise distinct paths, all come from the linker, every linked
+   file is represented by a returned file with exactly its path (since
+   /repo commit 11ec04b) and the same contents, two linked files with one canonical path have
    equal contents, no linked file sits on an input unless overwriting is allowed *)
 Theorem two_outputs_one_path :
   forall opt oc kept,
     cancel_early oc = false -> to_stdout opt = false -> compile opt oc = (kept, false) ->
-    NoDup (map ckey kept) /\
+    NoDup (map o_path kept) /\
     (forall o, In o kept -> In o (linked oc)) /\
-    (forall o, In o (linked oc) -> exists k, In k kept /\ ckey k = ckey o /\ o_data k = o_data o) /\
+    (forall o, In o (linked oc) -> exists k, In k kept /\ o_path k = o_path o /\ o_data k = o_data o) /\
     (forall o1 o2, In o1 (linked oc) -> In o2 (linked oc) -> ckey o1 = ckey o2 -> o_data o1 = o_data o2) /\
     (effective_allow opt = false -> forall o, In o (linked oc) -> ~ In (ckey o) (map canon (inputs oc))) /\
     link_err oc = false.
@@ -264,7 +264,7 @@ Theorem io_writes_are_reported_and_avoid_failing_paths :
     step_io phys fixed opt st oc wf = (st', r) -> In (EWrite p c) (r_effects r) ->
     r_failed_early r = false /\ write opt = true /\ to_stdout opt = false /\ ~ In p wf /\
     exists o, In o (r_outputs r) /\ o_path o = p /\ o_data o = c.
-Proof. exact io_writes_are_reported. Qed.
+Proof. exact io_writes_are_reported_cur. Qed.
 Print Assumptions io_writes_are_reported_and_avoid_failing_paths.
 
 (* an attempted write that fails is never silent: the build reports errors *)
@@ -272,9 +272,9 @@ Theorem io_failure_reports_error :
   forall phys fixed opt st oc wf st' r o,
     step_io phys fixed opt st oc wf = (st', r) ->
     r_failed_early r = false -> write opt = true -> to_stdout opt = false ->
-    In o (r_outputs r) -> skip phys st (latest st') o = false -> In (o_path o) wf ->
+    In o (r_outputs r) -> skip phys st (hashes_of (r_outputs r)) o = false -> In (o_path o) wf ->
     r_errors r = true.
-Proof. exact io_failure_is_reported. Qed.
+Proof. exact io_failure_is_reported_cur. Qed.
 Print Assumptions io_failure_reports_error.
 
 (* REFUTED (inside the statement by the property text: the build "reports
@@ -289,16 +289,19 @@ Theorem write_error_build_writes_nothing_refuted :
 Proof. exact write_error_build_writes_nothing_refuted_w. Qed.
 Print Assumptions write_error_build_writes_nothing_refuted.
 
-(* REFUTED: with a write failure in the history, deletes_only_own_earlier_outputs
-   fails - the failed path is in the hash table and is "deleted" by a later
-   rebuild although no rebuild wrote it (replayed: the user's empty directory
-   out/a.js is removed) *)
-Theorem deletes_only_own_under_write_failure_refuted :
-  exists opt d0 oc1 wf oc2 r1 r2,
-    trace_io phys_id true opt (init d0) [(oc1, wf); (oc2, [])] = [r1; r2] /\
-    exists p, In (EDelete p) (r_effects r2) /\ ~ In p (written_paths [r1]).
-Proof. exact deletes_only_own_under_write_failure_refuted_w. Qed.
-Print Assumptions deletes_only_own_under_write_failure_refuted.
+(* what /repo commit b32af0b repaired (finding J2, reproduced before the commit
+   and again by reverting it): the path of a failed write stayed in the hash
+   table and was "deleted" by a later rebuild although no rebuild wrote it (the
+   user's empty directory out/a.js was removed).  On the current step the path
+   is forgotten (Examples.v, io_deletes_only_own below). *)
+Theorem before_fix_b32af0b_deleted_never_written_path :
+  exists opt d0 oc1 wf oc2,
+    let st1 := fst (step_io_before_b32af0b phys_id true opt (init d0) oc1 wf) in
+    let r1 := snd (step_io_before_b32af0b phys_id true opt (init d0) oc1 wf) in
+    let r2 := snd (step_io_before_b32af0b phys_id true opt st1 oc2 []) in
+    exists p, In (EDelete p) (r_effects r2) /\ ~ In p (writes_of (r_effects r1)).
+Proof. exact before_fix_b32af0b_deleted_never_written_path_w. Qed.
+Print Assumptions before_fix_b32af0b_deleted_never_written_path.
 
 (* ---- the path layer (PathModel.v: esbuild's clean/join/rel/dir/base/ext,
    PathRelativeToOutbase, template parsing and rendering, the entry point's
@@ -394,14 +397,16 @@ Theorem two_outputs_one_path_reported :
 Proof. exact compile_two_on_one_path. Qed.
 Print Assumptions two_outputs_one_path_reported.
 
-(* REFUTED (the other side of folding case everywhere; observable on Linux):
-   of two mergeable case variants only the first is kept, so the exact path of
-   the second one - which the bundle refers to - is never written *)
-Theorem dedupe_keeps_exact_path_refuted :
-  exists outs kept o,
-    dedupe [] outs = (kept, []) /\ In o outs /\ ~ In (o_path o) (map o_path kept).
-Proof. exact dedupe_keeps_exact_path_refuted_w. Qed.
-Print Assumptions dedupe_keeps_exact_path_refuted.
+(* restored in full by /repo commit 11ec04b (finding K): when the duplicate-path
+   rule reports no error, the exact path of every linked file - which is what
+   the generated code refers to - is the path of a kept file with the same
+   contents; a mergeable case variant is kept, not dropped *)
+Theorem dedupe_keeps_exact_path :
+  forall outs kept,
+    dedupe [] outs = (kept, []) ->
+    forall o, In o outs -> exists k, In k kept /\ o_path k = o_path o /\ o_data k = o_data o.
+Proof. exact dedupe_keeps_exact_path_all. Qed.
+Print Assumptions dedupe_keeps_exact_path.
 
 (* ---- modes: every way of starting a build goes through the same validation ---- *)
 Theorem allow_overwrite_forced_only_without_write_in_every_mode :
@@ -458,23 +463,35 @@ Print Assumptions asset_output_inside_outdir.
 (* ---- histories with write failures: what a rebuild deletes ----
    FULL statement (false): "every path a rebuild deletes was written by an
    earlier rebuild of the same context and is not an input of the current
-   build" - refuted by deletes_only_own_under_write_failure_refuted (J2) and
-   no_input_deleted_by_successful_rebuild_refuted (F2), both kept above.
-   PARTIAL, excluding exactly those two shapes: every deleted path was
-   REPORTED by an earlier rebuild and is not a current output; it was written
-   unless it is a path at which an earlier write failed (J2); it is not an
-   input of the current build unless an input is a path an earlier rebuild
-   reported (F2).  Every history, every file system, both steps. *)
+   build" - still refuted by no_input_deleted_by_successful_rebuild_refuted
+   (F2).  The other counter-example (J2, a failed write's path in the table) is
+   repaired by b32af0b, so the first half now holds in full: every deleted path
+   was WRITTEN by an earlier rebuild, write failures or not.
+   PARTIAL, excluding exactly the F2 shape: it is not an input of the current
+   build unless an input is a path an earlier rebuild reported.
+   Every history, every file system. *)
 Theorem io_deletes_only_own_partial :
   forall phys fixed opt d0 ocs pre oc wf res post,
-    trace_io_full phys fixed opt (init d0) ocs = pre ++ (oc, wf, res) :: post ->
+    trace_io_full phys fixed true opt (init d0) ocs = pre ++ (oc, wf, res) :: post ->
     forall p, In (EDelete p) (r_effects res) ->
       In p (reported_paths pre) /\
       ~ In p (map o_path (r_outputs res)) /\
-      (In p (written_paths_io pre) \/ In p (failed_paths pre)) /\
+      In p (written_paths_io pre) /\
       ((forall q, In q (inputs oc) -> ~ In q (reported_paths pre)) -> ~ In p (inputs oc)).
 Proof. exact io_deletes_all. Qed.
 Print Assumptions io_deletes_only_own_partial.
+
+(* before b32af0b the third clause needed "or a path at which an earlier write failed" *)
+Theorem before_fix_b32af0b_io_deletes_partial :
+  forall phys fixed opt d0 ocs pre oc wf res post,
+    trace_io_full phys fixed false opt (init d0) ocs = pre ++ (oc, wf, res) :: post ->
+    forall p, In (EDelete p) (r_effects res) ->
+      In p (reported_paths pre) /\
+      ~ In p (map o_path (r_outputs res)) /\
+      (In p (written_paths_io pre) \/ In p (failed_paths false pre)) /\
+      ((forall q, In q (inputs oc) -> ~ In q (reported_paths pre)) -> ~ In p (inputs oc)).
+Proof. exact io_deletes_all_before_fix. Qed.
+Print Assumptions before_fix_b32af0b_io_deletes_partial.
 
 (* ---- cancellation: the flag is read in ScanBundle, on entry of Compile and
    once after Compile returns, never again ---- *)
